@@ -13,6 +13,7 @@ func Main(args []string) int {
 		fmt.Println("usage: upfsim check|worker|replay|shrink|smoke ...")
 		return 2
 	}
+	ensureRaceLog()
 	switch args[0] {
 	case "smoke":
 		return smoke()
